@@ -22,6 +22,7 @@ import BW.Proofs.Query
 import BW.Proofs.PlannerFetch3
 import BW.Proofs.PlannerStep6
 import BW.Proofs.PlannerStep11
+import BW.Proofs.PlannerCorollaries
 import BW.Proofs.Projection
 import BW.Proofs.Hooks
 import BW.Proofs.HooksHead
@@ -173,6 +174,23 @@ theorem select_pattern_eq_solutions_plain {F : Facts} (hF : Facts.WF F = true) {
     (h : processPattern F gs (c0 :: cs) lo 0 (fun _ => none) = .ok out) :
     SetEq out.rows (solutions (gs.flatMap scanOf) (nl lo.lower) (nl lo.upper) (c0 :: cs)) :=
   processPattern_spec_plain hF hg U lo c0 cs h0 hrest hno hopt hex out h
+
+/-- **C03 end to end for SELECT without GROUP BY**: what the statement shows — the planner's table after the plain
+    projection (`projectPlain` maps `projectRow` over the rows) — is, output column by output column, the reference's
+    simultaneous projection of the solutions: every shown row is the projection of a solution, every solution's
+    projection is shown (as sets of rows, anchors up to zone). Hypotheses: those of `select_pattern_eq_solutions`, the
+    output names distinct, and every row holds the projected bindings (the semantic checks of the SELECT list). -/
+theorem select_shows_the_projected_solutions {F : Facts} (hF : Facts.WF F = true) {gs : List QGraph} (hg : GraphsOK F gs)
+    (U : Universe gs) (lo : QOpts) (c0 : Clause) (cs : List Clause) (h0 : PatClause U c0)
+    (hrest : ∀ c ∈ cs, PatClause U c) (hopt : c0.optional = false) (hex : c0.extractsNothing = false) (out : Tbl)
+    (h : processPattern F gs (c0 :: cs) lo 0 (fun _ => none) = .ok out)
+    (ps : List Proj) (hb : ∀ p ∈ ps, p.binding ≠ []) (hn : (ps.map Proj.out).Nodup)
+    (hr : ∀ r ∈ out.rows, ∀ p ∈ ps, r.has p.binding = true) :
+    (∀ r ∈ out.rows, ∃ x ∈ solutionsO (gs.flatMap scanOf) (nl lo.lower) (nl lo.upper) (c0 :: cs),
+      ∀ p ∈ ps, ((projectRow ps r).get p.out).map normCell = ((BW.Spec.project ps x).get p.out).map normCell) ∧
+    (∀ x ∈ solutionsO (gs.flatMap scanOf) (nl lo.lower) (nl lo.upper) (c0 :: cs), ∃ r ∈ out.rows,
+      ∀ p ∈ ps, ((projectRow ps r).get p.out).map normCell = ((BW.Spec.project ps x).get p.out).map normCell) :=
+  select_plain_spec hF hg U lo c0 cs h0 hrest hopt hex out h ps hb hn hr
 
 /-- One clause, whatever the strategy. -/
 theorem one_clause_is_one_join {F : Facts} (hF : Facts.WF F = true) {gs : List QGraph} (hg : GraphsOK F gs)
@@ -390,6 +408,7 @@ end BW.Props.C03
 #print axioms BW.Props.C03.specialisation_is_transparent
 #print axioms BW.Props.C03.select_pattern_eq_solutions
 #print axioms BW.Props.C03.select_pattern_eq_solutions_plain
+#print axioms BW.Props.C03.select_shows_the_projected_solutions
 #print axioms BW.Props.C03.per_row_clause_is_the_clause_the_row_sees
 #print axioms BW.Props.C03.one_clause_is_one_join
 #print axioms BW.Props.C03.projection_is_simultaneous
